@@ -46,16 +46,20 @@ Theorem C32_constant_tests_known_only :
 Proof. exact constant_tests_known_only. Qed.
 Print Assumptions C32_constant_tests_known_only.
 
-(* "sleeping is enabled" is tested in two different ways: `SLEEP and not ISLAND` (forward.py, make_data,
-   put_data: whether the compact arrays are ALLOCATED) and `SLEEP` alone (today: solver.solve, i.e. whether
-   the compact solver is USED, collision_driver, reset_data).  Witness of the disagreement: SLEEP enabled
-   together with ISLAND disabled; on the real code mjw.step then crashes (finding
-   C32:solver.solve:sleep-enabled-island-disabled-crash, replayed by bin/props/C32.py in a subprocess). *)
-Theorem C32_sleep_guard_consistent_refuted :
-  sleep_sites_without_island <> nil /\ In "forward.fwd_acceleration" sleep_sites_with_island /\
-  In "io.make_data" sleep_sites_with_island.
-Proof. exact sleep_guard_consistent_refuted. Qed.
-Print Assumptions C32_sleep_guard_consistent_refuted.
+(* "sleeping is enabled" is ONE predicate: every direct test of EnableBit.SLEEP outside put_model's rejections
+   also tests the ISLAND bit in the same expression, except in the functions of the committed list
+   sleep_only_harmless (the two broadphase launchers and reset_data; Model/Flags.v records why testing SLEEP
+   alone is harmless there); the functions that choose the sleep path, allocate for it or consume its arrays
+   (solver.solve, make_data, put_data, the forward.py functions) all test SLEEP-and-not-ISLAND and never SLEEP alone; and the
+   set of SLEEP-only sites of the regenerated source is exactly that committed list.
+   History: before /repo 783455b solver.solve tested SLEEP alone and mjw.step crashed with SLEEP enabled and
+   ISLAND disabled (C32:solver.solve:sleep-enabled-island-disabled-crash; regression case in bin/props/C32.py). *)
+Theorem C32_sleep_guard_consistent :
+  (forall q, In q sleep_guard_sites -> In "DisableBit.ISLAND" (snd q) \/ In (fst q) sleep_only_harmless) /\
+  (forall f, In f sleep_must_test_island -> In f sleep_sites_with_island /\ ~ In f sleep_sites_without_island) /\
+  (forall f, In f sleep_sites_without_island <-> In f sleep_only_harmless).
+Proof. exact sleep_guard_consistent. Qed.
+Print Assumptions C32_sleep_guard_consistent.
 
 (* ---- general facts about the analysis ----------------------------------------------------------- *)
 (* taint is sound: two runs under valuations that agree on every condition outside cs, from stores that
